@@ -19,6 +19,7 @@ type histModel struct {
 	n        int          // snapshot count
 	cur      int          // current epoch
 	retained map[int]bool // epochs whose published map must be readable
+	empty    map[int]bool // epochs that published an empty map (both formats)
 }
 
 func (m *histModel) tick() {
@@ -49,6 +50,23 @@ func (m *histModel) resize(newN int) {
 	m.n = newN
 }
 
+// tickEmpty takes both candidates out of the network before the tick: the new epoch publishes empty maps.
+func (w *c08World) tickEmpty() {
+	e := w.m.cur + 1
+	for _, i := range []int{0, 1} {
+		// (a candidate that is not there: the contract may refuse - nothing to remove)
+		w.c.Invoke(w.alpha, w.nm, "updateStateIR", 2, w.pub(i))
+	}
+	o := w.c.Invoke(w.alpha, w.nm, "newEpoch", e)
+	w.h.Op("tick -> epoch %d with an empty network map (count %d): %s", e, w.m.n, o)
+	if !o.Halt {
+		fail("C08: count %d was accepted but newEpoch(%d) fails: %s", w.m.n, e, o.Fault)
+	}
+	w.m.tick()
+	w.m.empty[e] = true
+	w.h.Mark("empty-map-epoch")
+}
+
 // c08World drives one history.
 type c08World struct {
 	*nmWorld
@@ -57,7 +75,7 @@ type c08World struct {
 
 func newC08World(h *ev.History) *c08World {
 	w := &c08World{nmWorld: newNmWorld(1, h)}
-	w.m = &histModel{n: 10, retained: map[int]bool{}}
+	w.m = &histModel{n: 10, retained: map[int]bool{}, empty: map[int]bool{}}
 	return w
 }
 
@@ -96,13 +114,13 @@ func (w *c08World) resize(n int) bool {
 func (w *c08World) checkAll(what string) {
 	m := w.m
 	legacy := func(e int) []string {
-		if e >= 1 && m.retained[e] {
+		if e >= 1 && m.retained[e] && !m.empty[e] {
 			return []string{legacyNodeString(legacyInfo(w.pub(0), e), 1)}
 		}
 		return nil
 	}
 	structured := func(e int) []string {
-		if e >= 1 && m.retained[e] {
+		if e >= 1 && m.retained[e] && !m.empty[e] {
 			return []string{chainkit.ItemString(node2Item(w.pub(1), e, 1))}
 		}
 		return nil
@@ -123,7 +141,7 @@ func (w *c08World) checkAll(what string) {
 		w.expectList("C08", fmt.Sprintf("listNodes(%d) at epoch %d with count %d after %s", e, m.cur, m.n, what), w.call("listNodes", e), structured(e))
 	}
 	if m.cur >= 1 && m.n >= 1 {
-		w.expectList("C08", "netmap() after "+what, w.call("netmap"), []string{legacyNodeString(legacyInfo(w.pub(0), m.cur), 1)})
+		w.expectList("C08", "netmap() after "+what, w.call("netmap"), legacy(m.cur))
 	}
 }
 
@@ -241,7 +259,7 @@ func TestC08LongRun(t *testing.T) {
 func TestC08Random(t *testing.T) {
 	theT = t
 	col := ev.New("C08", "random",
-		"rapid: up to 60 steps of consecutive ticks and updateSnapshotCount(-1..12) in any order, all three read paths compared with the retained-epochs model after every resize and every tick that follows a resize within count+2 steps (and at the end); non-trivial = at least two accepted resizes with ticks in between",
+		"rapid: up to 60 steps of consecutive ticks (one in six publishing an empty network map) and updateSnapshotCount(-1..12) in any order, all three read paths compared with the retained-epochs model after every resize and every tick that follows a resize within count+2 steps (and at the end); non-trivial = at least two accepted resizes with ticks in between",
 		"epochs advance by one per tick (as the Inner Ring does)")
 	runRapid(t, col, func(rt *rapid.T, h *ev.History) {
 		w := newC08World(h)
@@ -262,7 +280,11 @@ func TestC08Random(t *testing.T) {
 				}
 				w.checkAll(fmt.Sprintf("resize to %d", n))
 			} else {
-				w.tick()
+				if rapid.IntRange(0, 5).Draw(rt, "emptyMap") == 0 {
+					w.tickEmpty()
+				} else {
+					w.tick()
+				}
 				ticksBetween = true
 				if watch > 0 {
 					watch--
